@@ -117,8 +117,7 @@ theorem inv_step (P : Params) (hP : WF P) (s s' : St) (a : Act) (hi : Inv P s)
           simp at hd'; subst hd'
           simp [hq, hd, Deadline.covers]
       · rename_i hq
-        split at hs <;> simp at hs
-        rename_i hd
+        simp at hs
         subst hs
         refine ⟨?_, by simp, ?_⟩
         · intro hdirty; rcases i1 hdirty with h | h | h
@@ -127,7 +126,7 @@ theorem inv_step (P : Params) (hP : WF P) (s s' : St) (a : Act) (hi : Inv P s)
           · simp [hpc, Pc.beforeRead] at h
         · intro d' hd' _
           simp at hd'; subst hd'
-          rcases hd with hd | hd <;> simp [hq, hd, Deadline.covers]
+          cases d <;> simp [hq, Deadline.covers]
   case loopSelect =>
     obtain ⟨i1, i2, i3⟩ := hi
     split at hs <;> simp at hs
